@@ -359,4 +359,5 @@ def check_prop(ctx, prop, modules, theorems, facets, trusted, rule, explanation,
         "harness_stats": meta,
         "explanation": explanation,
     })
+    cov.update(getattr(ctx, "extra_cov", {}))
     return core.finish(ctx, level, cov, assumptions)
